@@ -91,6 +91,95 @@ fn attempt_nodrop(cell: &OnceInitCell<u32, Value>, outcome: &str, calls: &Atomic
     }
 }
 
+static ZST_LIVE: AtomicI64 = AtomicI64::new(0);
+static ZST_DROPS: AtomicU64 = AtomicU64::new(0);
+/// a zero-sized seed that still has a destructor (a token / guard)
+pub struct Token;
+impl Token {
+    fn new() -> Token {
+        ZST_LIVE.fetch_add(1, Ordering::SeqCst);
+        Token
+    }
+}
+impl Drop for Token {
+    fn drop(&mut self) {
+        ZST_LIVE.fetch_sub(1, Ordering::SeqCst);
+        ZST_DROPS.fetch_add(1, Ordering::SeqCst);
+    }
+}
+
+fn zst_cases(rep: &mut Report) {
+    for outcomes in [vec!["ok"], vec!["err", "ok"], vec!["panic", "err"], vec![], vec!["ok", "ok"]] {
+        rep.cases += 1;
+        ZST_LIVE.store(0, Ordering::SeqCst);
+        ZST_DROPS.store(0, Ordering::SeqCst);
+        reset();
+        let cell = OnceInitCell::<Token, Value>::new(Token::new());
+        let mut done = false;
+        for o in outcomes.iter() {
+            let _ = std::panic::catch_unwind(std::panic::AssertUnwindSafe(|| {
+                cell.get_or_try_init(|_t: &mut Token| match *o {
+                    "ok" => Ok(Value::new(1)),
+                    "err" => Err(()),
+                    _ => panic!("initialiser panics"),
+                })
+                .map(|_| ())
+            }));
+            done |= *o == "ok";
+            let want = if done { (0, 1) } else { (1, 0) };
+            if (ZST_LIVE.load(Ordering::SeqCst), VAL_LIVE.load(Ordering::SeqCst)) != want {
+                rep.mismatch(json!({"what":"zero-sized seed with a destructor: not exactly one of seed and value alive","outcomes":outcomes,
+                    "live_seeds":ZST_LIVE.load(Ordering::SeqCst),"live_values":VAL_LIVE.load(Ordering::SeqCst)}));
+            }
+        }
+        drop(cell);
+        if ZST_DROPS.load(Ordering::SeqCst) != 1 || ZST_LIVE.load(Ordering::SeqCst) != 0 || VAL_LIVE.load(Ordering::SeqCst) != 0 {
+            rep.mismatch(json!({"what":"zero-sized seed with a destructor: not dropped exactly once","outcomes":outcomes,"drops":ZST_DROPS.load(Ordering::SeqCst)}));
+        }
+    }
+}
+
+/// racing threads on a seed WITHOUT destructor (the other code path)
+fn nodrop_races(rep: &mut Report, rng: &mut StdRng) {
+    for _ in 0..150 {
+        rep.cases += 1;
+        reset();
+        let k = rng.gen_range(2..=4);
+        let cell = Arc::new(OnceInitCell::<u32, Value>::new(0));
+        let oks = Arc::new(AtomicU64::new(0));
+        let inside = Arc::new(AtomicI64::new(0));
+        let overlap = Arc::new(AtomicU64::new(0));
+        let barrier = Arc::new(std::sync::Barrier::new(k));
+        let hs: Vec<_> = (0..k).map(|_| {
+            let (cell, oks, inside, overlap, barrier) = (cell.clone(), oks.clone(), inside.clone(), overlap.clone(), barrier.clone());
+            std::thread::spawn(move || {
+                barrier.wait();
+                let r = cell.get_or_try_init(|s: &mut u32| {
+                    if inside.fetch_add(1, Ordering::SeqCst) != 0 {
+                        overlap.fetch_add(1, Ordering::SeqCst);
+                    }
+                    *s += 1;
+                    std::thread::sleep(std::time::Duration::from_micros(300));
+                    inside.fetch_sub(1, Ordering::SeqCst);
+                    oks.fetch_add(1, Ordering::SeqCst);
+                    Ok::<_, ()>(Value::new(*s))
+                });
+                r.map(|v| (v as *const Value as usize, v.0)).ok()
+            })
+        }).collect();
+        let got: std::collections::BTreeSet<_> = hs.into_iter().filter_map(|h| h.join().unwrap()).collect();
+        rep.checks += 1;
+        if oks.load(Ordering::SeqCst) != 1 || overlap.load(Ordering::SeqCst) != 0 || got.len() != 1 {
+            rep.mismatch(json!({"what":"seed without destructor: the successful initialiser did not run exactly once, alone",
+                "runs":oks.load(Ordering::SeqCst),"overlapping_runs":overlap.load(Ordering::SeqCst),"distinct_results":got.len()}));
+        }
+        drop(cell);
+        if VAL_LIVE.load(Ordering::SeqCst) != 0 {
+            rep.mismatch(json!({"what":"seed without destructor: values leaked or double-dropped","live":VAL_LIVE.load(Ordering::SeqCst)}));
+        }
+    }
+}
+
 /// `amv once-replay <seed>`: every outcome sequence up to length 4 on both code paths,
 /// then K-thread races.
 pub fn main(args: &[String]) {
@@ -200,8 +289,10 @@ pub fn main(args: &[String]) {
             rep.mismatch(json!({"what":"with_value: the value is not dropped exactly once"}));
         }
     }
+    zst_cases(&mut rep);
     // K threads racing; outcomes prescribed per thread; gated so that they overlap
     let mut rng = StdRng::seed_from_u64(seed);
+    nodrop_races(&mut rep, &mut rng);
     trace::enable();
     for round in 0..300 {
         rep.cases += 1;
